@@ -24,14 +24,14 @@ RULE = ("a case places secret fields (aes / xor / best) at the root, in sub-sche
         "opens during dumps/loads contains no key file other than the expected ones, (4) a fresh configuration (new "
         "objects; 1 in 40 in a new process) loading the document gets every plaintext back; non-trivial = >= 2 "
         "non-empty secrets at >= 2 depths; distinct = distinct case content")
-REQUIRED = ("layout:only-keyed-subtrees", "layout:transplanted-subconfig", "layout:names-inherited-file", "documents_scanned_for_tokens", "ciphertexts_decrypted_by_oracle", "keyfile_open_sets_checked",
+REQUIRED = ("layout:two-types-one-schema-different-keyfiles", "layout:only-keyed-subtrees", "layout:transplanted-subconfig", "layout:names-inherited-file", "documents_scanned_for_tokens", "ciphertexts_decrypted_by_oracle", "keyfile_open_sets_checked",
             "reloads_compared", "layout:root-ctor", "layout:root-attr", "layout:sub", "layout:ctype", "layout:default",
             "secrets_in_list_items", "rekey_after_first_use", "new_process_reloads")
 ASSUMPTIONS = ["only files under the sandbox root are considered; HOME is redirected so the default key file is sandboxed",
                "ciphertext equality is never compared (fresh IV)", "documents are decoded with the library's codecs (C04)",
                "a key file named on a sub-configuration *instance* is judged for saving only: loading a document rebuilds "
                "sub-configurations, which a key named on the old instance cannot survive (not part of the statement)"]
-POSITIONS = ["s", "lst", "dsec", "a.dsec", "a.s", "a.b.s", "a.b.c.s", "t.s", "t.inner.s", "items", "titems"]
+POSITIONS = ["s", "lst", "dsec", "a.dsec", "a.s", "a.b.s", "a.b.c.s", "t.s", "t.inner.s", "t2.s", "items", "titems"]
 
 
 def generate(rng, ctx):
@@ -47,12 +47,14 @@ def generate(rng, ctx):
         # a config type / sub-configuration that names the very file it would inherit anyway must still be pinned to it
         "T_same": rng.random() < 0.25,
         "a_same": rng.random() < 0.15,
+        # a second configuration type made from the same schema under the same name, with another (or no) key file
+        "T2": rng.random() < 0.5,
     }
     # the root names nothing and holds no secret of its own: the default key file must never be touched
     layout["only_keyed_subtrees"] = rng.random() < 0.15
     if layout["only_keyed_subtrees"]:
         layout.update({"root": None, "a": True, "ab": rng.random() < 0.5, "T": True, "TI": True, "T_same": False, "a_same": False,
-                       "rekey": False})
+                       "rekey": False, "T2": True})
     if layout["T_same"]:
         layout["T"] = True
     if layout["a_same"]:
@@ -60,6 +62,7 @@ def generate(rng, ctx):
     # a sub-configuration object that already lives in another tree (with another key file) is assigned into this one
     layout["transplant_a"] = (not layout["a"]) and (not layout["ab"]) and rng.random() < 0.25 and not layout.get("only_keyed_subtrees")
     methods = {p: rng.choice(["aes", "xor", "best"]) for p in POSITIONS}
+    methods["t2.s"] = methods["t.s"]  # both types are made from one schema: the very same field
 
     def secret(empty_ok=True):
         if empty_ok and rng.random() < 0.1:
@@ -72,7 +75,7 @@ def generate(rng, ctx):
         "s": secret(), "lst": [secret(False) for _ in range(rng.choice([0, 1, 2, 3]))],
         "dsec": {"k%d" % i: secret(False) for i in range(rng.choice([0, 1, 2]))},
         "a.dsec": {"key.%d" % i: secret(False) for i in range(rng.choice([0, 1, 2]))}, "a.s": secret(), "a.b.s": secret(),
-        "a.b.c.s": secret(), "t.s": secret(), "t.inner.s": secret(),
+        "a.b.c.s": secret(), "t.s": secret(), "t.inner.s": secret(), "t2.s": secret(),
         "items": [{"s": secret(), "sub": {"s": secret()}, "n": i} for i in range(rng.choice([0, 1, 2, 3]))],
         "titems": [{"s": secret(), "n": i} for i in range(rng.choice([0, 1, 2]))],
     }
@@ -109,6 +112,7 @@ def build_schema(cc, case, d):
     tkey = os.path.join(d, "root.key" if lay.get("T_same") else "T.key")
     T = cc.make_type(ts, "T", module="vf_types", key_filename=tkey if lay["T"] else None)
     root.t = T
+    root.t2 = cc.make_type(ts, "T", module="vf_types", key_filename=os.path.join(d, "T2.key") if lay.get("T2") else None)
     item = cc.Schema()
     item.n = cc.IntField()
     item.s = cc.SecureField(method=m["items"])
@@ -146,7 +150,8 @@ def expected_keys(case, d, default, rootkey="root.key", sub=True):
     abk = os.path.join(d, "ab.key") if (lay["ab"] and sub) else ak
     tk = os.path.join(d, "root.key" if lay.get("T_same") else "T.key") if lay["T"] else rk
     tik = os.path.join(d, "TI.key") if lay["TI"] else rk
-    return {"s": rk, "lst": rk, "dsec": rk, "a.dsec": ak, "a.s": ak, "a.b.s": abk, "a.b.c.s": abk, "t.s": tk, "t.inner.s": tk, "items": rk,
+    t2k = os.path.join(d, "T2.key") if lay.get("T2") else rk
+    return {"t2.s": t2k, "s": rk, "lst": rk, "dsec": rk, "a.dsec": ak, "a.s": ak, "a.b.s": abk, "a.b.c.s": abk, "t.s": tk, "t.inner.s": tk, "items": rk,
             "titems": tik}
 
 
@@ -160,6 +165,8 @@ def fill(cfg, values):
     cfg.a.b.c.s = values["a.b.c.s"]
     cfg.t.s = values["t.s"]
     cfg.t.inner.s = values["t.inner.s"]
+    if "t2.s" in values:
+        cfg.t2.s = values["t2.s"]
     cfg.items = [dict(it) for it in values["items"]]
     cfg.titems = [dict(it) for it in values["titems"]]
 
@@ -169,6 +176,8 @@ def secret_positions(values):
     out = [("s", ["s"], values["s"]), ("a.s", ["a", "s"], values["a.s"]), ("a.b.s", ["a", "b", "s"], values["a.b.s"]),
            ("a.b.c.s", ["a", "b", "c", "s"], values["a.b.c.s"]), ("t.s", ["t", "s"], values["t.s"]),
            ("t.inner.s", ["t", "inner", "s"], values["t.inner.s"])]
+    if "t2.s" in values:
+        out.append(("t2.s", ["t2", "s"], values["t2.s"]))
     for i, v in enumerate(values["lst"]):
         out.append(("lst", ["lst", i], v))
     for k, v in values.get("dsec", {}).items():
@@ -193,7 +202,7 @@ def dig(tree, path):
 def read_values(cfg):
     return {
         "s": cfg.s, "lst": list(cfg.lst or []), "dsec": dict(cfg.dsec or {}), "a.dsec": dict(cfg.a.dsec or {}), "a.s": cfg.a.s, "a.b.s": cfg.a.b.s, "a.b.c.s": cfg.a.b.c.s, "t.s": cfg.t.s,
-        "t.inner.s": cfg.t.inner.s,
+        "t.inner.s": cfg.t.inner.s, "t2.s": cfg.t2.s,
         "items": [{"s": it.s, "sub": {"s": it.sub.s}, "n": it.n} for it in (cfg.items or [])],
         "titems": [{"s": it.s, "n": it.n} for it in (cfg.titems or [])],
     }
@@ -211,7 +220,7 @@ def run(case, ctx, res):
     log = ctx.filelog
     if log is None:
         log = ctx.filelog = FileLog(ctx.sb.root)
-    allkeys = [os.path.join(d, n) for n in ("root.key", "root2.key", "a.key", "ab.key", "T.key", "TI.key", "donor.key")] + [default]
+    allkeys = [os.path.join(d, n) for n in ("root.key", "root2.key", "a.key", "ab.key", "T.key", "T2.key", "TI.key", "donor.key")] + [default]
     if lay["existing"]:
         for i, p in enumerate(allkeys):
             with open(p, "wb") as fp:
@@ -235,6 +244,8 @@ def run(case, ctx, res):
         res.count("layout:names-inherited-file")
     if lay.get("only_keyed_subtrees"):
         res.count("layout:only-keyed-subtrees")
+    if lay.get("T2") != lay["T"] or (lay.get("T2") and not lay.get("T_same")):
+        res.count("layout:two-types-one-schema-different-keyfiles")
     if case["values"]["items"] or case["values"]["titems"] or case["values"]["lst"]:
         res.count("secrets_in_list_items")
     positions = secret_positions(case["values"])
@@ -259,7 +270,7 @@ def run(case, ctx, res):
 def _save_and_check(cc, ctx, res, case, cfg, schema, fmt, positions, exp, log, allkeys, rname, rkey):
     d = ctx.dir
     lay = case["layout"]
-    feat_l = "%s/%s" % (rname, "+".join(sorted(k for k in ("a", "ab", "T", "TI") if lay[k])) or ("root-" + str(lay["root"])))
+    feat_l = "%s/%s" % (rname, "+".join(sorted(k for k in ("a", "ab", "T", "TI", "T2") if lay.get(k))) or ("root-" + str(lay["root"])))
     log.clear()
     with log:
         try:
